@@ -103,4 +103,4 @@ class ConsumptionRule(ReducedRule):
     def __eq__(self, other):
         return other.is_consumption() and other.left_term == \
                self.left_term and other.right == self.right and \
-               other.f_parameter() == self.f_parameter
+               other.f_parameter == self.f_parameter
